@@ -1,0 +1,51 @@
+//! Thin wrappers over the crate-private framers/encoders.
+
+use bytes::{Bytes, BytesMut};
+
+use crate::error::ZmqError;
+use crate::message::{FrameBatch, Msg};
+use crate::security::framer::encoder::ZmtpFrameEncoder;
+use crate::security::framer::{ISecureFramer, NullFramer};
+
+pub struct NullFramerH(NullFramer);
+
+impl NullFramerH {
+  pub fn new(max_msg_size: i64, sndbatch_count: usize, sndbatch_bytes_physical: usize) -> Self {
+    Self(NullFramer::new(max_msg_size, sndbatch_count, sndbatch_bytes_physical))
+  }
+  pub fn try_read_msg(&mut self, buf: &mut BytesMut) -> Result<Option<Msg>, ZmqError> {
+    self.0.try_read_msg(buf)
+  }
+  pub fn write_msg_multipart(&mut self, msgs: FrameBatch) -> Result<Bytes, ZmqError> {
+    self.0.write_msg_multipart(msgs)
+  }
+  pub fn write_msg_batch(&mut self, batch: &[FrameBatch]) -> Result<Bytes, ZmqError> {
+    self.0.write_msg_batch(batch)
+  }
+  pub fn write_msg_split(&mut self, msg: Msg) -> Result<(Bytes, Option<Bytes>), ZmqError> {
+    self.0.write_msg_split(msg)
+  }
+  pub fn frame_vectored(&mut self, batch: &[FrameBatch]) -> Result<Vec<Bytes>, ZmqError> {
+    self.0.frame_vectored(batch)
+  }
+  pub fn try_read_msgs_from_bytes(&mut self, data: Bytes, acc: &mut BytesMut) -> Result<Vec<Msg>, ZmqError> {
+    self.0.try_read_msgs_from_bytes(data, acc)
+  }
+  pub fn is_passthrough(&self) -> bool {
+    self.0.is_passthrough()
+  }
+}
+
+pub struct FrameEncoderH(ZmtpFrameEncoder);
+
+impl FrameEncoderH {
+  pub fn new(header_cap: usize, coalesce_cap: usize) -> Self {
+    Self(ZmtpFrameEncoder::new(header_cap, coalesce_cap))
+  }
+  pub fn frame_contiguous(&mut self, batch: &[FrameBatch]) -> Result<Bytes, ZmqError> {
+    self.0.frame_contiguous(batch)
+  }
+  pub fn frame_vectored(&mut self, batch: &[FrameBatch]) -> Result<Vec<Bytes>, ZmqError> {
+    self.0.frame_vectored(batch)
+  }
+}
